@@ -80,6 +80,8 @@ class ProcActor:
             ch = self.w.ch
             delay = self.w.proc_delays[ch.choose('proc.delay', len(self.w.proc_delays))]
             code = 1 if ch.flip('proc.fails', 1, 5) else 0
+            if code and ch.flip('proc.killed', 1, 3):
+                code = -9  # ended by a signal (operator, out-of-memory killer): twisted reports exitCode None
             self.plan[id(p)] = (self.w.sim.now + delay, code)
             self.w.op(f'compliance process started: will exit {code} at +{delay}')
         return self.plan[id(p)]
@@ -98,7 +100,7 @@ class ProcActor:
     def exit(self, p):
         code = self._plan(p)[1]
         self.w.op(f'compliance process exits {code}')
-        self.w.probes['compliance_exit_%d' % code] += 1
+        self.w.probes['compliance_exit_%s' % (code if code >= 0 else 'signal')] += 1
         p.exit(code)
 
 
@@ -134,6 +136,34 @@ class FsmWorld(pipe.PipeWorld):
         # fault 'slow reactor': the callback of a finished background step (deferToThread) may reach the reactor a
         # little late - other events slip in between a poll and its callback (most runs: no delay)
         self.sim.cb_delays = self.cfg.get('cb_delays', [0, 0, 0, 0.05, 0.3])
+        # opening and closing the database is file I/O: a background step may be held up right there, and the reactor
+        # goes on meanwhile (the only pre-emption points inside pool-thread bodies; there is no line-level pre-emption)
+        import dawgie.db
+
+        w = self
+
+        def slow(real, label, before):
+            def call(*a, **k):
+                def wait():
+                    th = core.current_thread()
+                    if th is not None and not getattr(th, 'worker', False):
+                        d = [0, 0, 0.01, 0.5][w.ch.choose('io.' + label, 4)]
+                        if d:
+                            w.sim.count('fault.slow_io_' + label)
+                            th.park(until=w.sim.now + d, label='io.' + label)
+                if before:
+                    wait()
+                try:
+                    return real(*a, **k)
+                finally:
+                    if not before:
+                        wait()
+            return call
+
+        # (the archive step calls reopen() and close() back to back; the wait comes after the close so that the
+        # window between the two - microseconds in reality - is not blown up into a state of its own)
+        dawgie.db.open = slow(pipe._orig(dawgie.db, 'open'), 'db_open', True)
+        dawgie.db.close = slow(pipe._orig(dawgie.db, 'close'), 'db_close', False)
         os.makedirs(os.path.join(self.dir, 'ae', '.git'), exist_ok=True)
         ctx.ae_repository_branch_ops = self.ops_branch
         ctx.ae_repository_branch_stable = 'stable'
@@ -612,6 +642,12 @@ class FsmWorld(pipe.PipeWorld):
             self.probes['settle_still_outstanding'] += 1
             return
         self.probes['settled'] += 1
+        if f.state == 'gitting' and not self.http_inflight():
+            # 'submit and back': gitting is the rest of a submission that is being checked.  Here no compliance process
+            # is alive, no continuation of a submission is queued and no request is open: nothing will ever take the
+            # pipeline back to running (it stays inactive, every later submission and reset is refused)
+            self.violate('C10', 'not_at_rest', 'gitting_with_no_submission_in_progress',
+                         f'no background step, compliance process or request is outstanding but the pipeline is still in gitting; transitions: {self.transitions[-6:]}')
         if f.state not in ('running', 'gitting') or f.transitioning.name != 'active':
             self.violate('C10', 'not_at_rest', f'{f.state}/{f.transitioning.name}',
                          f'no background step is outstanding but the pipeline is in {f.state}/{f.transitioning.name}; transitions: {self.transitions[-6:]}')
